@@ -131,7 +131,7 @@ func (f *fprinter) body(level int, nodes []Node) {
 func (f *fprinter) node(n Node, level int) {
 	switch n.K {
 	case "text":
-		v := n.W
+		v := WordText(n.W)
 		if n.Sp || n.Tr == "h" {
 			v += " "
 		}
